@@ -45,10 +45,12 @@ theorem sdecN_sticky (d : SDec) (hd : Sticky d) : ∀ n, Sticky (sdecN d n)
       | val v =>
         have h2 := sdecN_sticky d hd n s' h1
         simp only
-        cases hr2 : sdecN d n s' with
-        | mk o2 s'' =>
-          rw [hr2] at h2
-          cases o2 <;> simpa using h2
+        split
+        · exact h1
+        · cases hr2 : sdecN d n s' with
+          | mk o2 s'' =>
+            rw [hr2] at h2
+            cases o2 <;> simpa using h2
       | ret => simpa using h1
       | fuel => simpa using h1
 
@@ -70,7 +72,11 @@ theorem sdecEntries_sticky (kt : Ty) (dk dv : SDec) (hk : Sticky dk) (hv : Stick
         | mk o2 s2 =>
           rw [hr2] at h2
           cases o2 with
-          | val v => exact sdecEntries_sticky kt dk dv hk hv n _ s2 h2
+          | val v =>
+            simp only
+            split
+            · exact h2
+            · exact sdecEntries_sticky kt dk dv hk hv n _ s2 h2
           | ret => simpa using h2
           | fuel => simpa using h2
       | ret => simpa using h1
